@@ -867,8 +867,10 @@ def load_prefers_own_paths(ctx: Ctx, rule: str) -> int:
 
 
 def reference_skips_seen(ctx: Ctx, rule: str) -> int:
-    """visit_Name of both visitors follows a function that is referenced by name only when visit_Call has NOT handled it already: the membership test on the set
-    of seen names that guards the inspection is negative (`not in`)."""
+    """Both visitors follow a function that is referenced by name exactly when the set of seen names does NOT hold it yet: in the method that handles references, the
+    inspection of the referenced function (`inspect_call`) cannot be reached when the name is in the set, and can be reached when it is not - whatever the shape of the
+    test (`.. and name not in seen`, `if name in seen: return`)."""
+    from ..propdom import excluding_branches
     rep = ctx.report
     prog = ctx.prog
     n = 0
@@ -876,28 +878,38 @@ def reference_skips_seen(ctx: Ctx, rule: str) -> int:
         k = prog.cls(q)
         if k is None:
             continue
-        vc, vn = k.methods.get("visit_Call"), k.methods.get("visit_Name")
-        if vc is None or vn is None:
-            continue
         seen_sets = {y.func.value.attr for m__ in k.methods.values() if m__.name != "__init__" for y in m__.own_nodes()
                      if isinstance(y, ast.Call) and isinstance(y.func, ast.Attribute) and y.func.attr in ("add", "update")
                      and isinstance(y.func.value, ast.Attribute) and isinstance(y.func.value.value, ast.Name) and y.func.value.value.id == "self"}
-        tests = [c for c in vn.own_nodes() if isinstance(c, ast.Compare) and len(c.ops) == 1 and isinstance(c.ops[0], (ast.In, ast.NotIn))
-                 and isinstance(c.comparators[0], ast.Attribute) and c.comparators[0].attr in seen_sets]
-        for c in tests:
-            n += 1
-            desc = f"{k.name}.visit_Name inspects a referenced function only when `{unparse(c.comparators[0], 30)}` does not hold it"
-            # polarity: the compare sits positively in an `and` chain (possibly under `not`)
-            par = vn.module.parent.get(c)
-            negated = isinstance(par, ast.UnaryOp) and isinstance(par.op, ast.Not)
-            positive_notin = isinstance(c.ops[0], ast.NotIn) != negated
-            if positive_notin:
-                rep.ok(rule, vn.qname, desc, vn.loc(c))
-            else:
-                rep.bad(rule, vn.qname, desc, vn.loc(c), [f"{vn.loc(c)}: `{unparse(par if negated else c, 60)}` lets through exactly the names visit_Call has handled",
-                        "a function that is only handed by name to a higher-order helper (`apply(reader)`) is not followed: the paths it loads are not resolved before the main analysis, "
-                        "which then refuses them as 'loaded before produced' although they are in the store"], stmt_key(c),
-                        what="functions referenced by name are not followed by the analysis (the seen-names test is inverted)")
+        for vn in k.methods.values():
+            if vn.name == "visit_Call" or vn.name == "__init__":
+                continue
+            tests = [c for c in vn.own_nodes() if isinstance(c, ast.Compare) and len(c.ops) == 1 and isinstance(c.ops[0], (ast.In, ast.NotIn))
+                     and isinstance(c.comparators[0], ast.Attribute) and c.comparators[0].attr in seen_sets]
+            calls = [c for c in vn.own_nodes() if isinstance(c, ast.Call) and isinstance(c.func, ast.Attribute) and c.func.attr == "inspect_call"]
+            if not tests or not calls:
+                continue
+            cfg = cfg_of(vn)
+
+            def atom(e: ast.AST) -> Optional[str]:
+                if isinstance(e, ast.Compare) and len(e.ops) == 1 and isinstance(e.ops[0], (ast.In, ast.NotIn)) and isinstance(e.comparators[0], ast.Attribute) \
+                        and e.comparators[0].attr in seen_sets:
+                    return "seen" if isinstance(e.ops[0], ast.In) else "!seen"
+                return None
+            for c in calls:
+                n += 1
+                tg = cfg.nodes_of(c)
+                when_seen = cfg.find_path([cfg.entry], tg, avoid=excluding_branches(prog, vn, cfg, {"seen": True}, atom))
+                when_new = cfg.find_path([cfg.entry], tg, avoid=excluding_branches(prog, vn, cfg, {"seen": False}, atom))
+                desc = f"{k.name}.{vn.name} inspects a referenced function exactly when `self.{sorted(seen_sets)[0]}` does not hold its name"
+                if when_seen is None and when_new is not None:
+                    rep.ok(rule, vn.qname, desc, vn.loc(c))
+                else:
+                    rep.bad(rule, vn.qname, desc, vn.loc(c), [f"{vn.loc(tests[0])}: `{unparse(tests[0], 60)}`: the inspection is " + ("reachable for a name that was already handled" if when_seen is not None else "")
+                            + ("; " if when_seen is not None and when_new is None else "") + ("not reachable for a name that was not handled yet" if when_new is None else ""),
+                            "a function that is only handed by name to a higher-order helper (`apply(reader)`) is not followed: the paths it loads are not resolved before the main analysis, "
+                            "which then refuses them as 'loaded before produced' although they are in the store"], stmt_key(tests[0]),
+                            what="functions referenced by name are not followed by the analysis (the seen-names test is inverted)")
     return n
 
 
